@@ -83,6 +83,8 @@ class Lane:
             kind = rng.choice(g.MESSAGES)
             self.roundtrip(g.message(rng, kind), ms.Message, "Message/" + kind)
             self.roundtrip(g.message_header(rng), ms.MessageHeader, "MessageHeader")
+            self.header_from_reference_bytes(ms, (objgen.pick_u32(rng), objgen.pick_u32(rng), rng.choice([0, 0, 1, objgen.pick_u32(rng)]),
+                                                  objgen.pick_u64(rng)))
             k2 = rng.randrange(3)
             if k2 == 0:
                 self.roundtrip(ms.SupportedVersion(rng.randrange(256)), ms.SupportedVersion, "SupportedVersion")
@@ -90,6 +92,36 @@ class Lane:
                 self.roundtrip(ms.InventoryItem(objgen.rb(rng, 2), objgen.h32(rng)), ms.InventoryItem, "InventoryItem")
             else:
                 self.roundtrip(ms.Peer(objgen.pick_u32(rng), g.ip(rng), rng.randrange(65536)), ms.Peer, "Peer")
+
+    def header_from_reference_bytes(self, ms, intended):
+        """the message header as ANOTHER implementation would put it on the wire (fixed layout, packed here): the decoder must
+        give exactly these four values (every value is legal, zero included), twice, and encode them back to the same bytes; a
+        header constructed from the four values must hold them"""
+        import struct
+        ts, mid, irt, ctx = intended
+        hb = struct.pack(">BIIIQ", 0, ts, mid, irt, ctx) + b"\x00" * 32
+        self.c["A_headers_from_reference_bytes"] = self.c.get("A_headers_from_reference_bytes", 0) + 1
+        if 0 in intended:
+            self.c["A_headers_with_a_zero_field"] = self.c.get("A_headers_with_a_zero_field", 0) + 1
+        w = {"lane": "A-header-bytes", "class": "MessageHeader", "bytes": hb.hex()}
+        try:
+            d1 = ms.MessageHeader.deserialize(hb)
+            d2 = ms.MessageHeader.deserialize(hb)
+            got1 = (d1.timestamp, d1.id, d1.in_response_to, d1.context)
+            got2 = (d2.timestamp, d2.id, d2.in_response_to, d2.context)
+            again = d1.serialize()
+            made = ms.MessageHeader(ts, mid, irt, ctx)
+            held = (made.timestamp, made.id, made.in_response_to, made.context)
+        except Exception as e:
+            self.v("legal-value-cannot-be-decoded:MessageHeader", "header %r as packed by another implementation: %r" % (intended, e), w)
+            return
+        if got1 != intended or got2 != intended:
+            self.v("decoder-changes-value:MessageHeader", "header bytes carrying (timestamp, id, in_response_to, context) = %r decode "
+                   "to %r%s" % (intended, got1, "" if got1 == got2 else " and, the second time, to %r" % (got2,)), w)
+        if again != hb:
+            self.v("roundtrip-changes-encoding:MessageHeader", "encode(decode(b)) != b for a header packed by another implementation", w)
+        if held != intended:
+            self.v("constructor-changes-value:MessageHeader", "MessageHeader%r holds %r" % (intended, held), w)
 
     def roundtrip(self, val, decoder, cname):
         self.c["A_values"] += 1
@@ -714,6 +746,11 @@ def run_shard(spec):
             utxo = {dt.OutputReference(bytes.fromhex(h), i): dt.Output(v, sg.SECP256k1PublicKey(bytes.fromhex(pk)))
                     for h, i, v, pk in w["utxo"]}
             lane.derived_case(wallet, utxo, _rebuild_unsigned(bytes.fromhex(w["unsigned"])))
+        elif w.get("lane") == "A-header-bytes":
+            import struct
+            import skepticoin.networking.messages as ms
+            _v, ts, mid, irt, ctx = struct.unpack(">BIIIQ", b[:21])
+            lane.header_from_reference_bytes(ms, (ts, mid, irt, ctx))
         elif w.get("lane") == "G-two-threads":
             lane.lane_g_two_threads(30)
         elif w.get("lane") == "id-hook":
